@@ -37,6 +37,10 @@ def run(ctx, rep):
     check_extend(fx, rep)
     check_take(fx, rep)
     check_prepend(fx, rep)
+    # joining must not override what a revert already records (C17 R8, shared)
+    import engine
+    import c17
+    c17.check_revert_slot_writers(fx, engine.SubReport(rep, 'C17'))
 
 
 def check_transition(fx, rep):
